@@ -38,6 +38,10 @@ LUA_FILES = {
     'libs.p8/util.lua': b'indir=2\n',
     'plain.lua': b'pl=3\n',
     'a.lua.lua': b'dd=4\n',
+    # files that contribute no line / one empty line
+    'empty.lua': b'',
+    'nl.lua': b'\n',
+    'sub/empty.lua': b'',
 }
 TAB = b'-->8\n'
 CART_CODE = {
@@ -84,6 +88,7 @@ def tabs_of(code_lines):
 def line_kinds():
     kinds = [('plain', b'a=1\n'), ('plain', b'b=2 -- #include inc.lua\n')]
     kinds += [('lua', 'inc.lua'), ('lua', 'incn.lua'), ('lua', 'sub/s.lua'), ('lua', 'nest.lua'), ('lua', 'lnk.lua')]
+    kinds += [('lua', 'empty.lua'), ('lua', 'nl.lua'), ('lua', 'sub/empty.lua')]
     kinds += [('lua', 'inc0.p8.lua'), ('lua', 'libs.p8/util.lua'), ('lua', 'a.lua.lua'), ('missing', 'plain.lua.p8'), ('missing', 'inc.lua.lua')]
     kinds += [('p8', 'inc0', None), ('p8', 'inc2', None), ('p8', 'inc3e', None)]
     kinds += [('p8', 'inc2', n) for n in range(0, 5)]
